@@ -173,11 +173,34 @@ def _containers(case, ctx):
             return
 
 
+def _seedless(case, ctx):
+    """a stream created without a seed picks one itself - and is then as reproducible as any other: reset() replays,
+    and a second stream created with the seed it reports gives the same sequence"""
+    from pydsol.core.streams import MersenneTwister
+    m = MersenneTwister()
+    ctx.count("seedless_streams")
+    s0 = m.seed()
+    if not isinstance(s0, int) or m.original_seed() != s0:
+        ctx.viol("seed-getter-after-construction", {"seed": None, "got": [repr(s0), repr(m.original_seed())]})
+        return
+    first = [m.next_float(), m.next_int(0, 1000), m.next_bool(), m.next_float()]
+    m.reset()
+    again = [m.next_float(), m.next_int(0, 1000), m.next_bool(), m.next_float()]
+    t = MersenneTwister(s0)
+    twin = [t.next_float(), t.next_int(0, 1000), t.next_bool(), t.next_float()]
+    if again != first:
+        ctx.viol("reset-does-not-replay-seed", {"seed": "chosen by the stream", "reported": s0})
+    elif twin != first:
+        ctx.viol("twin-differs", {"seed": "chosen by the stream", "reported": s0})
+
+
 def run_case(case, ctx):
     from pydsol.core.streams import MersenneTwister
     seed, ops = case["seed"], case["ops"]
     if case["seed"] % 7 == 0:
         _containers(case, ctx)
+    if case["seed"] % 16 == 1:
+        _seedless(case, ctx)
     a, a2, b = MersenneTwister(seed), MersenneTwister(seed), MersenneTwister(case["bseed"])
     if a.seed() != seed or a.original_seed() != seed:
         ctx.viol("seed-getter-after-construction", {"seed": seed, "got": [a.seed(), a.original_seed()]})
